@@ -156,3 +156,39 @@ func ZZ_C02_DebugTick() {
 	vfPrint("nanos", s.timerwheel.nanos)
 	vfReach("x")
 }
+
+// ZZ_C02_TwoWriters: two writers to the same key with different symbolic costs, with a preemption anywhere
+// (in particular between a writer's map update and the queuing of its event, so that the update event of the
+// second writer can overtake the insert event of the first).
+func ZZ_C02_TwoWriters() {
+	capv := int64(vfConfig("CAP", 4))
+	var notes []zzNote
+	s := zzThreadedStore(capv, &notes)
+	vfSetPreemptions(vfConfig("PRE", 1))
+	done := make(chan int, 2)
+	for i := 0; i < 2; i++ {
+		i := i
+		go func() {
+			c := vfI64("cost")
+			vfAssume(c >= 1)
+			vfAssume(c <= capv)
+			s.Set(1, uint64(100+i), c, 0)
+			if vfConfig("SECOND", 1) == 1 {
+				c2 := vfI64("cost")
+				vfAssume(c2 >= 1)
+				vfAssume(c2 <= capv)
+				s.Set(1, uint64(200+i), c2, 0)
+			}
+			done <- 1
+		}()
+	}
+	<-done
+	<-done
+	vfSetPreemptions(0)
+	s.Wait()
+	vfReach("drained")
+	zzAccounted(s, "two-writers")
+	zzViews(s, "two-writers")
+	// (the key itself may have been evicted: reordered cost deltas can overshoot MaxSize transiently, which the
+	// property does not forbid; what it demands is exact accounting of whatever is resident)
+}
